@@ -13,14 +13,14 @@ static Shape gen_shape(vf::Rng& g, int st) {
   const double u = g.logmag(-3, 3);  // overall size is irrelevant
   switch (st) {
     case 0: s.a = s.b = s.c = u; break;
-    case 1: s.b = s.c = u; s.a = u * g.logmag(0.05, 1.5); break;
-    case 2: s.b = s.c = u; s.a = u * g.logmag(-1.5, -0.05); break;
+    case 1: s.b = s.c = u; s.a = u * g.logmag(0.05, 1); break;
+    case 2: s.b = s.c = u; s.a = u * g.logmag(-1, -0.05); break;
     case 3: { double r[3]; do { r[0] = g.logmag(-0.5, 0.5); r[1] = g.logmag(-0.5, 0.5); r[2] = g.logmag(-0.5, 0.5); }
               while (std::fabs(r[0] / r[1] - 1) < 0.05 || std::fabs(r[0] / r[2] - 1) < 0.05 || std::fabs(r[1] / r[2] - 1) < 0.05);
               s.a = u * r[0]; s.b = u * r[1]; s.c = u * r[2]; break; }
     case 4: s.b = s.c = u; s.a = u * (1 + g.sign() * g.logmag(-8, -2)); break;
     case 5: s.a = u * g.logmag(-0.7, 0.7); s.b = u; s.c = u * (1 + g.sign() * g.logmag(-7, -2)); break;
-    default: s.a = u * g.logmag(1.5, 3) ; s.b = u * (g.coin() ? 1.0 : g.logmag(-3, -1.5)); s.c = u; if (g.coin()) std::swap(s.a, s.c);
+    default: s.a = u * g.logmag(1, 3) ; s.b = u * (g.coin() ? 1.0 : g.logmag(-3, -1)); s.c = u; if (g.coin()) std::swap(s.a, s.c);
   }
   // The library refuses (contract violation -> abort) directions whose *floating-point* dot product
   // is not exactly zero (findings/C25-orthogonality-contract.md): orientations are drawn until the
@@ -62,6 +62,8 @@ static L axes_gap(const Shape& s) {
   return g;
 }
 
+static L two_regime(L gap) { return gap < 2e-3L ? 16 * gap + 1e-9L : KF * EPS * (1 + 1 / (gap * gap)); }
+
 static void eshelby_case(const vf::Args& a, uint64_t idx) {
   vf::Rng g(a.seed, 2510, idx);
   const int st = int(idx % 7);
@@ -84,7 +86,9 @@ static void eshelby_case(const vf::Args& a, uint64_t idx) {
   const L gap = axes_gap(sh);
   // closed forms lose digits like 1/gap^2 when two semi-axes approach each other; below the
   // documented switch (1.5e-4 in double) the axisymmetric / spherical formula is substituted
-  const L shape_tol = (st == 4 || st == 5) ? 1e-3L : KF * EPS * (1 + 1 / (gap * gap));
+  // (documented switch: |e-1| or (a-b)/c below 1.5e-4 in double; (a-b)/c may be several times the gap
+  // used here, relative to the longest axis): below 2e-3 an error proportional to the gap is allowed
+  const L shape_tol = two_regime(gap);
   R.check(nm("HillPolarisationTensor:major-symmetry"), S, idx, h, mref::major_asym(Pl), dmax(shape_tol, KF * EPS) * nP, dump);
   {
     const auto P2 = hom::computeHillPolarisationTensor<double>(IM0, sh.na, sh.a, sh.nb, sh.b, sh.c);
@@ -116,7 +120,7 @@ static void eshelby_case(const vf::Args& a, uint64_t idx) {
     if (!esh::hill_quad(Pref_loc, m0.C, ax)) { R.skip(nm("HillPolarisationTensor=integral-definition"), S); return; }
   }
   const T4 Pref = esh::rotate(Pref_loc, sh.Q);
-  R.check(nm("HillPolarisationTensor=integral-definition"), S, idx, h, t4dist(Pl, Pref), (shape_tol + 64 * 1e-13L) * nP, dump);
+  R.check(nm("HillPolarisationTensor=integral-definition"), S, idx, h, t4dist(Pl, Pref), (shape_tol + 1e-10L) * nP, dump);
   if (st == 0) {
     const auto Ss = hom::computeSphereEshelbyTensor(m0.nu);
     R.check(nm("SphereEshelbyTensor=Eshelby1957"), S, idx, h, t4dist(from_st2tost2(Ss, 3), esh::sphere_eshelby(m0.nu)), KF * EPS, dump);
@@ -134,7 +138,7 @@ static void eshelby_case(const vf::Args& a, uint64_t idx) {
     T4 Pr = Pref;
     if (st != 4) { const L ax[3] = {L(e), 1, 1}; T4 t; if (esh::hill_quad(t, m0.C, ax)) Pr = esh::rotate(t, sh.Q); }
     const L de = std::fabs(L(e) - 1);
-    const L tol = st == 4 ? (4 * de + 1e-9L) : KF * EPS * (1 + 1 / (de * de)) + 64 * 1e-13L;
+    const L tol = st == 4 ? (16 * de + 1e-9L) : two_regime(de) + 1e-10L;
     if (st == 4) {  // spheroid -> sphere limit: S(e) = S(1) + O(e-1)
       R.check(nm("AxisymmetricalHillPolarisationTensor->sphere"), S, idx, h, t4dist(from_st2tost2(Pa, 3), ddot(esh::sphere_eshelby(m0.nu), S0inv)), tol * nP, dump);
       const auto Sa = hom::computeAxisymmetricalEshelbyTensor(m0.nu, e);
@@ -151,7 +155,7 @@ static void eshelby_case(const vf::Args& a, uint64_t idx) {
   T4 Aref;
   if (!esh::localisation(Aref, Pref, m0.C, mi.C)) { R.skip(nm("EllipsoidLocalisationTensor=[I+P:(Ci-C0)]^-1"), S); return; }
   const L contrast = dmax(mi.E / m0.E, m0.E / mi.E);
-  const L tolA = (shape_tol + 64 * 1e-13L) * 8 * contrast * dmax(t4norm(Aref), 1);
+  const L tolA = (shape_tol + 1e-10L) * 8 * contrast * dmax(t4norm(Aref), 1);
   const auto Al = hom::computeEllipsoidLocalisationTensor<double>(m0.E, m0.nu, mi.E, mi.nu, sh.na, sh.a, sh.nb, sh.b, sh.c);
   R.check(nm("EllipsoidLocalisationTensor=[I+P:(Ci-C0)]^-1"), S, idx, h, t4dist(from_st2tost2(Al, 3), Aref), tolA, dump);
   {
@@ -241,7 +245,7 @@ static void eshelby_case(const vf::Args& a, uint64_t idx) {
     const auto ym = hom::computeSphereMoriTanakaScheme<double>(m0.E, m0.nu, f, mi.E, mi.nu);
     const auto yd2 = yd.ToKG(), ym2 = ym.ToKG();
     // (E,nu) -> (K,G) amplifies by 1/(1-2nu)
-    const L ck = 1 / (1 - 2 * L(ym.nu)) + 1 / (1 - 2 * L(yd.nu));
+    const L ck = 1 / std::fabs(1 - 2 * L(ym.nu)) + 1 / std::fabs(1 - 2 * L(yd.nu));
     R.check(nm("SphereDiluteScheme(E,nu)=closed-form"), S, idx, h, std::fabs(L(yd2.kappa) - Kd) + std::fabs(L(yd2.mu) - Gd), tk * (1 + ck), dump);
     R.check(nm("SphereMoriTanakaScheme(E,nu)=closed-form"), S, idx, h, std::fabs(L(ym2.kappa) - Km) + std::fabs(L(ym2.mu) - Gm), tk * (1 + ck), dump);
     if (f == 0) R.check(nm("f=0:SphereDilute/MoriTanaka=matrix"), S, idx, h, std::fabs(L(kd.kappa) - m0.K) + std::fabs(L(kd.mu) - m0.G) + std::fabs(L(km.kappa) - m0.K) + std::fabs(L(km.mu) - m0.G), tk, dump);
